@@ -65,7 +65,8 @@ class LoopMachine(Machine):
 
     def run_loop(self, st, s, cond, inc, body, cond_first):
         entry = st.fork()
-        if self.force_summary and not getattr(self, 'quiet', False):
+        only = getattr(self, 'force_summary_fns', None)
+        if self.force_summary and not getattr(self, 'quiet', False) and (only is None or self.fn in only):
             return self.summarise(entry, s, cond, inc, body, cond_first)
         try:
             return self.run_concrete(st, s, cond, inc, body, cond_first)
